@@ -7,7 +7,10 @@ from vlib import rustlex as rl
 from vlib.gen import make_r_fmt, make_r_sub, make_r_dyn, r_fold, r_dynw
 
 QB = "src/backend/query_builder.rs"
-P = ["C08"]
+# every statement / clause renderer carries C08 (clause order) AND C01 (no value given to a rendered clause is lost, duplicated or moved: each clause event once, in order);
+# items that only pin a TEXT FORM (the WINDOW parentheses, ON DUPLICATE KEY UPDATE) carry C08 alone
+P = ["C08", "C01"]
+PT = ["C08"]
 OPAQUE = ["ValueTuple", "FunctionCall", "OnConflictTarget", "ColumnRef", "JoinType", "JoinOn", "ConditionHolder", "SimpleExpr", "DynIden",
           "Value"]
 r_fmt = make_r_fmt(wmap=lambda w: w, merge=True)
@@ -174,7 +177,7 @@ def parts_spec(u, prefix, ty, parts):
     requires %(req)s, tr == %(shape)s,
     ensures tr == t0 + %(p)s_upto_%(n)s(s),
 { %(body)s }
-""" % dict(d, req=pre_req, body=body), "lemma_%s_stage_%s" % (prefix, name), props=P)
+""" % dict(d, req=pre_req, body=body), "lemma_%s_stage_%s" % (prefix, name), props=(PT if name == "window" else P))
         prev = name
     u.spec("// the whole statement: all parts, in grammar order\npub open spec fn %s_events(s: %s) -> Seq<Ev> { %s_upto_%s(s) }\n" % (prefix, ty, prefix, prev), "render::%s_events" % prefix, props=P)
 
@@ -390,19 +393,19 @@ def build(u, variant=None):
         u.emit("pub struct MysqlQueryBuilder;\nimpl MysqlQueryBuilder {\n")
         u.spec(abstract("prepare_table_ref", "x: &TableRef", "Ev::TRef(*x)") + abstract("prepare_condition", "x: &ConditionHolder, kw: &str", "Ev::Cond(kw@, *x)"), "render::abstract-sub-renderers(mysql)", props=P)
         MY = "src/backend/mysql/query.rs"
-        u.fn(MY, "impl QueryBuilder for MysqlQueryBuilder", "prepare_update_join", props=P, key="MysqlQueryBuilder::prepare_update_join", vpath="MysqlQueryBuilder::prepare_update_join",
+        u.fn(MY, "impl QueryBuilder for MysqlQueryBuilder", "prepare_update_join", props=P + ["C06"], key="MysqlQueryBuilder::prepare_update_join", vpath="MysqlQueryBuilder::prepare_update_join",
              rules=[r_dynw, r_fmt, make_r_sub("R-slice", r"from: &\[TableRef\]", "from: &Vec<TableRef>")],
              spec=[("""ensures
         // MySQL form: nothing without extra tables, otherwise ` JOIN <table> ON <the statement's condition>` (the condition moves here)
         from@.len() == 0 ==> final(sql).tr() == old(sql).tr(),
         from@.len() > 0 ==> final(sql).tr().len() >= old(sql).tr().len() + 3 && final(sql).tr().subrange(0, old(sql).tr().len() as int) == old(sql).tr()
-            && final(sql).tr()[old(sql).tr().len() as int] == lit(" JOIN ") && final(sql).tr().last() == Ev::Cond("ON"@, *condition),""", P),
+            && final(sql).tr()[old(sql).tr().len() as int] == lit(" JOIN ") && final(sql).tr().last() == Ev::Cond("ON"@, *condition),""", P + ["C06"]),
                    ("    // C08: EVERY table that was given is rendered\n    forall|i: int| 0 <= i < from@.len() ==> final(sql).tr().contains(Ev::TRef(#[trigger] from@[i])),", P)],
              proofs={"body-start": "let ghost t0 = sql.tr();", "body-end": "proof { assert(sql.tr().subrange(0, t0.len() as int) =~= t0); assert(sql.tr()[t0.len() as int + 1] == Ev::TRef(from@[0])); }"})
         u.fn(MY, "impl QueryBuilder for MysqlQueryBuilder", "prepare_update_from", props=P, key="MysqlQueryBuilder::prepare_update_from", vpath="MysqlQueryBuilder::prepare_update_from",
              rules=[r_dynw, make_r_sub("R-slice", r"_: &\[TableRef\], _: &mut W", "_from: &Vec<TableRef>, sql: &mut W")],
              spec="ensures\n    // UPDATE .. FROM is not MySQL syntax: it must not appear\n    final(sql).tr() == old(sql).tr(),")
-        u.fn(MY, "impl QueryBuilder for MysqlQueryBuilder", "prepare_update_condition", props=P, key="MysqlQueryBuilder::prepare_update_condition", vpath="MysqlQueryBuilder::prepare_update_condition",
+        u.fn(MY, "impl QueryBuilder for MysqlQueryBuilder", "prepare_update_condition", props=P + ["C06"], key="MysqlQueryBuilder::prepare_update_condition", vpath="MysqlQueryBuilder::prepare_update_condition",
              rules=[r_dynw, make_r_sub("R-slice", r"from: &\[TableRef\]", "from: &Vec<TableRef>")],
              spec="ensures\n    // the condition is rendered exactly once: in JOIN .. ON when there are extra tables, as WHERE otherwise\n    final(sql).tr() == (if from@.len() > 0 { old(sql).tr() } else { old(sql).tr().push(Ev::Cond(\"WHERE\"@, *condition)) }),")
         u.emit("}\n")
@@ -704,7 +707,7 @@ pub open spec fn returning_events(r: Option<ReturningClause>) -> Seq<Ev> {
     !(*on_conflict_action matches Some(OnConflictAction::DoNothing(pks)) && pks@.len() == 0) ==> final(sql).tr() == old(sql).tr() + (match *on_conflict_action {
         Some(OnConflictAction::DoNothing(pks)) => seq![lit(" UPDATE ")] + l_pkassign(pks@),
         a => DfltU::action_events_common(a) }),""", P),
-               ("    // grammar: ON DUPLICATE KEY is always followed by UPDATE assignment_list (there is no `ON DUPLICATE KEY IGNORE`)\n    *on_conflict_action matches Some(OnConflictAction::DoNothing(pks)) ==> (pks@.len() == 0 ==> final(sql).tr().len() > old(sql).tr().len() && final(sql).tr()[old(sql).tr().len() as int] == lit(\" UPDATE \")),", P)],
+               ("    // grammar: ON DUPLICATE KEY is always followed by UPDATE assignment_list (there is no `ON DUPLICATE KEY IGNORE`)\n    *on_conflict_action matches Some(OnConflictAction::DoNothing(pks)) ==> (pks@.len() == 0 ==> final(sql).tr().len() > old(sql).tr().len() && final(sql).tr()[old(sql).tr().len() as int] == lit(\" UPDATE \")),", PT)],
          loops=["invariant it1.index@ <= pk_cols@.len(), first == (it1.index@ == 0), sql.tr() == tp + l_pkassign(pk_cols@.subrange(0, it1.index@ as int)),"],
          proofs={"body-start": "let ghost t0 = sql.tr();",
                  "before#1:let mut first = true;": "let ghost tp = sql.tr();\nproof { lemma_l_pkassign_empty(pk_cols@); assert(tp + Seq::<Ev>::empty() =~= tp); }",
